@@ -1,6 +1,8 @@
 (** C02 - Roland S-7xx export is byte-exact for every cluster chain and loop mode.
-    Property theorems only (lemmas in RolandProofs.v, FatProofs.v, StreamProofs.v). *)
-From SE Require Import Base Fat FatProofs Stream StreamProofs Roland RolandProofs.
+    Property theorems only (lemmas in RolandProofs.v, RolandChainProofs.v, FatProofs.v,
+    StreamProofs.v, StreamRevProofs.v). *)
+From SE Require Import Base Fat FatProofs Stream StreamProofs StreamRevProofs Roland RolandProofs
+                       RolandChainProofs.
 
 (** The window every one of the seven _get_*_params functions selects, for EVERY loop-mode
     value and every five points: bytes [2*start, 2*start + 2*(end_mode - start + 1)) with
@@ -38,16 +40,40 @@ Theorem roland_forward_reads : forall mode p file content ops s,
 Proof. exact roland_forward_reads_lemma. Qed.
 Print Assumptions roland_forward_reads.
 
-(** The operational statement for the two REVERSE modes is not proved (the reversed view's
-    refinement theorem is the open part of C08); what is proved for them is the content
-    theorem [roland_sample_bytes] above; the block-wise reads are tied by the correspondence
-    relation roland_sample_read / roland_sample_pcm and the image-level oracle. *)
-Definition roland_reverse_reads_statement : Prop :=
-  forall mode p file content,
-    roland_reversed mode = true -> wf file content ->
-    0 <= p_start p -> p_start p <= roland_end mode p ->
-    2 * (roland_end mode p + 1) <= zlen (logical file content) ->
-    read_all (roland_sample_view mode p file) content = Ok (window_bytes mode p (logical file content)).
+(** The two REVERSE modes (5, 6).  readall() of the fresh exported stream returns the whole
+    window with its 16-bit words in reverse time order, for every window inside the file
+    (the window size is a whole, positive number of words by construction; readall works in
+    4096-byte buffers, a whole number of words); never OutOfFuel, never an alignment error.
+    Instance of C08's reversed-view theorems (StreamRevProofs.v). *)
+Theorem roland_reverse_reads : forall mode p file content,
+  roland_reversed mode = true -> wf file content ->
+  0 <= p_start p -> p_start p <= roland_end mode p ->
+  2 * (roland_end mode p + 1) <= zlen (logical file content) ->
+  read_all (roland_sample_view mode p file) content = Ok (window_bytes mode p (logical file content)).
+Proof. exact roland_reverse_reads_lemma. Qed.
+Print Assumptions roland_reverse_reads.
+(** ... and under ANY history of tell / seek(off, _) / read(n >= 0) whose offsets and sizes are
+    whole numbers of 16-bit words - any block size the transcoder may use - from any
+    word-aligned good state, the stream answers as an ordinary file over the reversed window
+    (the counterpart of [roland_forward_reads]; non-aligned operations are rejected with
+    BadAlign / BadReadSize, position unchanged: C08's reversed_view_refines_file). *)
+Theorem roland_reverse_history : forall mode p file content ops s,
+  roland_reversed mode = true -> wf file content ->
+  0 <= p_start p -> p_start p <= roland_end mode p ->
+  2 * (roland_end mode p + 1) <= zlen (logical file content) ->
+  good (roland_sample_view mode p file) s -> v_tell s mod 2 = 0 -> Forall (op_aligned 2) ops ->
+  fst (run (roland_sample_view mode p file) content s ops)
+  = ref_run (window_bytes mode p (logical file content)) (v_tell s) ops.
+Proof. exact roland_reverse_history_lemma. Qed.
+Print Assumptions roland_reverse_history.
+(** readall() for EVERY loop-mode value (forward modes: C08's readall_reads_rest). *)
+Theorem roland_readall : forall mode p file content,
+  wf file content ->
+  0 <= p_start p -> p_start p <= roland_end mode p ->
+  2 * (roland_end mode p + 1) <= zlen (logical file content) ->
+  read_all (roland_sample_view mode p file) content = Ok (window_bytes mode p (logical file content)).
+Proof. exact roland_readall_lemma. Qed.
+Print Assumptions roland_readall.
 
 (** The file of a sample: for ANY order of the clusters in the chain (no ordering hypothesis),
     byte a of the file is byte (a mod L) of the (a / L)-th cluster of the chain, for every a up
@@ -68,23 +94,67 @@ Proof. exact roland_file_wf_lemma. Qed.
 Print Assumptions roland_file_wf.
 
 (** get_file on a link table that holds the chain returns the chain minus its [cluster_top]
-    leading clusters, for every chain (any cluster order) and every offset.  PARTIAL: the
-    step from the raw FAT words to the link table ([roland_decode] installs every raw chain,
-    also one entered at a cluster that is not its lowest) is not proved; it is
-    [roland_decode_chain_statement] below and is carried by the exhaustive correspondence
-    roland_sample_pcm (every chain order over <= 4 live clusters) and C07's FAT relation. *)
+    leading clusters, for every chain (any cluster order) and every offset.  (The name keeps
+    its historical suffix: the step from the raw FAT words to the link table is
+    [roland_decode_chain] below, the composition is [roland_chain_resolved].) *)
 Theorem roland_chain_resolved_partial : forall N links c top,
   Chain links (hd 0 c) c -> zlen c <= N -> 0 <= top ->
   roland_get_file N links (hd 0 c) top = Ok (skipn (Z.to_nat top) c).
 Proof. exact roland_get_file_chain_lemma. Qed.
 Print Assumptions roland_chain_resolved_partial.
-Definition raw_fat_chain (fat : list Z) (c : list Z) : Prop :=
-  c <> [] /\ NoDup c /\ Forall (fun x => 2 <= x < zlen fat - 9) c /\
+
+(** Raw FAT words -> link table.  [raw_roland_chain fat c] (RolandChainProofs.v): [c] is not
+    empty; every cluster of [c] lies in the part of the table the decoder scans
+    ([2, N - 9)) and below the flag values (automatic in the real table: N = 0x10000, so
+    N - 9 = 0xfff7); the word of each cluster but the last is the number of the next one
+    (the model, like the code, follows the raw 16-bit word whatever the FAT version), the
+    word of the last is an end mark (>= 0xfff8).  No ordering, no "linked once" and no
+    no-repetition hypothesis (absence of repetition FOLLOWS: [raw_roland_chain_nodup]). *)
+Theorem raw_roland_chain_unfold : forall fat c,
+  raw_roland_chain fat c <->
+  c <> [] /\
+  Forall (fun x => 2 <= x < zlen fat - 9 /\ x < FAT_END) c /\
   (forall i, 0 <= i < zlen c - 1 -> znth 0 fat (znth 0 c i) = znth 0 c (i + 1)) /\
   FAT_END <= znth 0 fat (znth 0 c (zlen c - 1)).
-Definition roland_decode_chain_statement : Prop :=
-  forall fat ver links c,
-    roland_decode fat = Ok (ver, links) -> raw_fat_chain fat c -> Chain links (hd 0 c) c.
+Proof. exact raw_roland_chain_unfold_lemma. Qed.
+Print Assumptions raw_roland_chain_unfold.
+(** In EVERY accepted table ([roland_decode] = Ok: no error flag on a walked path, no free /
+    reserved word in the middle of a path, no loop) every raw chain is installed in the
+    decoded link table - whatever else the table holds: chains entered at a cluster that is
+    not their lowest, chains sharing a tail with other chains (cross-linked), any cluster
+    order, any table size.  Unbounded (invariants over [roland_outer] / [roland_walk]). *)
+Theorem roland_decode_chain : forall fat ver links c,
+  roland_decode fat = Ok (ver, links) -> raw_roland_chain fat c -> Chain links (hd 0 c) c.
+Proof. exact roland_decode_chain_lemma. Qed.
+Print Assumptions roland_decode_chain.
+Theorem raw_roland_chain_nodup : forall fat c,
+  raw_roland_chain fat c -> NoDup c /\ zlen c <= zlen fat.
+Proof. exact raw_roland_chain_nodup_lemma. Qed.
+Print Assumptions raw_roland_chain_nodup.
+(** Raw FAT words -> cluster list of the sample file (decode, then get_file). *)
+Theorem roland_chain_resolved : forall fat ver links c top,
+  roland_decode fat = Ok (ver, links) -> raw_roland_chain fat c -> 0 <= top ->
+  roland_get_file (zlen fat) links (hd 0 c) top = Ok (skipn (Z.to_nat top) c).
+Proof. exact roland_chain_resolved_lemma. Qed.
+Print Assumptions roland_chain_resolved.
+
+(** Raw FAT words + image bytes -> exported PCM bytes, composing everything above: for every
+    accepted FAT, raw chain, [cluster_top] inside the chain, loop mode and window inside the
+    remaining clusters (clusters inside the image's data window), readall() of the stream
+    SampleFile.to_generalized builds over the decoded table is the window of the file made of
+    the chain's clusters minus the first [cluster_top], in chain order (16-bit words reversed
+    for modes 5, 6).  [L] = cluster size, [doff] = DATA_FAT_OFFSET (parameters of the model). *)
+Theorem roland_sample_pcm_exact : forall L doff fat image ver links c top mode p,
+  roland_decode fat = Ok (ver, links) -> raw_roland_chain fat c ->
+  0 < L -> 0 <= doff < zlen image -> 0 <= top < zlen c ->
+  Forall (fun x => (x + 1) * L <= zlen image - doff) c ->
+  0 <= p_start p -> p_start p <= roland_end mode p ->
+  2 * (roland_end mode p + 1) <= L * (zlen c - top) ->
+  let file := roland_file_view L doff (zlen image) (skipn (Z.to_nat top) c) in
+  roland_sample_pcm L doff fat image (hd 0 c) top mode p
+  = Ok (window_bytes mode p (logical file image)).
+Proof. exact roland_sample_pcm_lemma. Qed.
+Print Assumptions roland_sample_pcm_exact.
 
 (** The sample files of a performance are EXACTLY the samples reachable performance -> patch
     -> partial -> sample slot through non-negative, in-range pointers: every reachable sample
@@ -102,13 +172,34 @@ Theorem roland_orphans_exact : forall d p,
   In p (d_perf_dir d) /\ ~ exists raw, In raw (d_volumes d) /\ In p raw /\ 0 <= p.
 Proof. exact roland_orphans_lemma. Qed.
 Print Assumptions roland_orphans_exact.
-(** Not proved: that the pseudo volume is PRESENT whenever such a performance exists (the
-    counting test of VolumeEntriesList._parse: number of distinct listed pointers <
-    num_performances), and the end-to-end composition with naming and the WAV writer. *)
-Definition roland_orphan_volume_present_statement : Prop :=
-  forall d, NoDup (d_perf_dir d) -> d_num_perf d = zlen (d_perf_dir d) ->
-    (forall p, In p (listed_perfs d) -> In p (d_perf_dir d)) ->
-    orphan_perfs d <> [] -> In (ORPHAN_VOLUME, orphan_perfs d) (roland_volumes d).
+(** The pseudo volume is PRESENT whenever such a performance exists (the counting test of
+    VolumeEntriesList._parse: number of distinct listed pointers < num_performances), when
+    the id area's num_performances counts the directory entries and the volumes only list
+    directory entries (pigeonhole on the duplicate-free np.unique output). *)
+Theorem roland_orphan_volume_present : forall d,
+  NoDup (d_perf_dir d) -> d_num_perf d = zlen (d_perf_dir d) ->
+  (forall p, In p (listed_perfs d) -> In p (d_perf_dir d)) ->
+  orphan_perfs d <> [] -> In (ORPHAN_VOLUME, orphan_perfs d) (roland_volumes d).
+Proof. exact roland_orphan_volume_present_lemma. Qed.
+Print Assumptions roland_orphan_volume_present.
+(** the same from weaker hypotheses: num_performances >= number of directory entries (the
+    directory need not be duplicate free) *)
+Theorem roland_orphan_volume_present_general : forall d,
+  zlen (d_perf_dir d) <= d_num_perf d ->
+  (forall p, In p (listed_perfs d) -> In p (d_perf_dir d)) ->
+  orphan_perfs d <> [] -> In (ORPHAN_VOLUME, orphan_perfs d) (roland_volumes d).
+Proof. exact roland_orphan_volume_present_general_lemma. Qed.
+Print Assumptions roland_orphan_volume_present_general.
+(** conversely (at most 128 real volumes): an entry numbered 128 comes from that test only and
+    lists exactly the orphans *)
+Theorem roland_orphan_volume_only : forall d ps,
+  zlen (d_volumes d) <= ORPHAN_VOLUME ->
+  In (ORPHAN_VOLUME, ps) (roland_volumes d) ->
+  ps = orphan_perfs d /\ zlen (listed_perfs d) < d_num_perf d.
+Proof. exact roland_orphan_volume_only_lemma. Qed.
+Print Assumptions roland_orphan_volume_only.
+(** Still not proved in Coq: the end-to-end composition with naming and the WAV writer
+    (image-level oracle only). *)
 
 (** Non-vacuity: a scaled-down disk (cluster = 4 bytes, data window at byte 3) whose sample
     lives on the chain 4 -> 2 -> 3 (entered at its HIGHEST cluster), one leading cluster
@@ -140,3 +231,85 @@ Example c02_example_reachable :
               d_partial := [(2, [5; -1; 7; 5])] |} in
   perf_samples d 0 = [5; 7] /\ roland_listing d = [(0, [(0, [5; 7])]); (128, [(3, [5; 7])])].
 Proof. vm_compute. split; reflexivity. Qed.
+
+(** Non-vacuity of the new theorems.  The chain 4 -> 2 -> 3 of [ex_fat] is a raw chain; so
+    are, in a table where two chains share the tail 3 -> 4 (cross-linked), both of them; the
+    end-to-end theorem applies to the example above (all its hypotheses hold) and gives the
+    computed bytes; the example disk has an orphan and satisfies the presence hypotheses. *)
+Example c02_example_raw_chain : raw_roland_chain ex_fat [4; 2; 3].
+Proof.
+  apply raw_roland_chain_unfold. split; [discriminate|]. split; [|split].
+  - repeat constructor; vm_compute; congruence.
+  - intros i Hi. change (zlen [4; 2; 3]) with 3 in Hi.
+    assert (E : i = 0 \/ i = 1) by lia. destruct E as [->| ->]; reflexivity.
+  - vm_compute. congruence.
+Qed.
+Definition ex_fat_shared : list Z :=
+  [FAT_AREA_ID; 0; 5; 4; FAT_END; 3; 3; 0; 0; 0; 0; 0; 0; 0; FAT_V2; FAT_V1].
+Example c02_example_shared_tail :
+  raw_roland_chain ex_fat_shared [6; 3; 4] /\ raw_roland_chain ex_fat_shared [2; 5; 3; 4]
+  /\ exists links, roland_decode ex_fat_shared = Ok (2, links)
+       /\ roland_get_file 16 links 6 0 = Ok [6; 3; 4] /\ roland_get_file 16 links 2 1 = Ok [5; 3; 4].
+Proof.
+  split; [|split].
+  - apply raw_roland_chain_unfold. split; [discriminate|]. split; [|split].
+    + repeat constructor; vm_compute; congruence.
+    + intros i Hi. change (zlen [6; 3; 4]) with 3 in Hi.
+      assert (E : i = 0 \/ i = 1) by lia. destruct E as [->| ->]; reflexivity.
+    + vm_compute. congruence.
+  - apply raw_roland_chain_unfold. split; [discriminate|]. split; [|split].
+    + repeat constructor; vm_compute; congruence.
+    + intros i Hi. change (zlen [2; 5; 3; 4]) with 4 in Hi.
+      assert (E : i = 0 \/ i = 1 \/ i = 2) by lia. destruct E as [->|[->| ->]]; reflexivity.
+    + vm_compute. congruence.
+  - destruct (roland_decode ex_fat_shared) as [[ver links]| |] eqn:E; try (vm_compute in E; discriminate).
+    assert (ver = 2) as -> by (vm_compute in E; congruence).
+    exists links. split; [reflexivity|]. split.
+    + apply (roland_chain_resolved ex_fat_shared 2 links [6; 3; 4] 0 E); [|lia].
+      apply raw_roland_chain_unfold. split; [discriminate|]. split; [|split].
+      * repeat constructor; vm_compute; congruence.
+      * intros i Hi. change (zlen [6; 3; 4]) with 3 in Hi.
+        assert (Ei : i = 0 \/ i = 1) by lia. destruct Ei as [->| ->]; reflexivity.
+      * vm_compute. congruence.
+    + apply (roland_chain_resolved ex_fat_shared 2 links [2; 5; 3; 4] 1 E); [|lia].
+      apply raw_roland_chain_unfold. split; [discriminate|]. split; [|split].
+      * repeat constructor; vm_compute; congruence.
+      * intros i Hi. change (zlen [2; 5; 3; 4]) with 4 in Hi.
+        assert (Ei : i = 0 \/ i = 1 \/ i = 2) by lia. destruct Ei as [->|[->| ->]]; reflexivity.
+      * vm_compute. congruence.
+Qed.
+(** [roland_sample_pcm_exact] instantiated: reverse-loop mode 6, cluster_top 1 *)
+Example c02_example_pcm_by_theorem :
+  roland_sample_pcm 4 3 ex_fat ex_image 4 1 6 ex_points
+  = Ok (window_bytes 6 ex_points (logical (roland_file_view 4 3 23 [2; 3]) ex_image))
+  /\ window_bytes 6 ex_points (logical (roland_file_view 4 3 23 [2; 3]) ex_image)
+     = [117; 118; 115; 116; 113; 114].
+Proof.
+  split; [|vm_compute; reflexivity].
+  destruct (roland_decode ex_fat) as [[ver links]| |] eqn:E; try (vm_compute in E; discriminate).
+  apply (roland_sample_pcm_exact 4 3 ex_fat ex_image ver links [4; 2; 3] 1 6 ex_points E
+           c02_example_raw_chain); try (vm_compute; intuition congruence).
+  repeat constructor; vm_compute; congruence.
+Qed.
+(** [roland_reverse_reads] instantiated on the file of [c02_example_hypotheses] *)
+Example c02_example_reverse_reads :
+  read_all (roland_sample_view 6 ex_points (roland_file_view 4 3 23 [2; 3])) ex_image
+  = Ok [117; 118; 115; 116; 113; 114].
+Proof.
+  destruct c02_example_hypotheses as (Hwf & Hlen & Hw). rewrite <- Hw.
+  apply roland_reverse_reads; try assumption; try reflexivity; vm_compute; congruence.
+Qed.
+Example c02_example_orphan_volume :
+  let d := {| d_num_perf := 2; d_volumes := [[0; -1]]; d_perf_dir := [0; 3];
+              d_perf := [(0, [1; -1]); (3, [1])]; d_patch := [(1, [2; 2; -1])];
+              d_partial := [(2, [5; -1; 7; 5])] |} in
+  orphan_perfs d = [3] /\ In (ORPHAN_VOLUME, [3]) (roland_volumes d).
+Proof.
+  cbn zeta. split; [reflexivity|].
+  match goal with |- In _ (roland_volumes ?d) => change [3] with (orphan_perfs d) end.
+  apply roland_orphan_volume_present.
+  - repeat constructor; cbn; intuition congruence.
+  - reflexivity.
+  - intros p Hp. vm_compute in Hp. destruct Hp as [<-|[]]. now left.
+  - vm_compute. discriminate.
+Qed.
